@@ -21,7 +21,7 @@ EXPLANATION = (
     "(r_min, eta, k) - no already rounded level is scaled and rounded again; S8 RUSH only sharpens (conjunction with the base "
     "decision). NOT decided: Rung.quantile equals numpy.quantile (arithmetic), the closed form of the levels itself.")
 
-FLOOR = {"S1": 1, "S2": 4, "S3": 3, "S4": 1, "S5": 3, "S6": 3, "S7": 4, "S8": 3}
+FLOOR = {"S1": 1, "S2": 4, "S3": 4, "S4": 1, "S5": 3, "S6": 3, "S7": 4, "S8": 3}
 
 MODE_FLAGS = (("self._is_min", "min"),)
 
@@ -332,7 +332,7 @@ def s8(ctx, rep, clause="S8"):
     rep.put(ok, clause, "guarded_by", "RUSHDecider.task_continues returns False whenever the base decision is False (only sharpens)", d, first, "",
             "RUSH can let a trial continue that the quantile rule stops")
     rb = P.method("RUSHDecider", "_return_better")
-    ifs = [s for s in rb.node.body if isinstance(s, ast.If)]
+    ifs = [s for s in walk_shallow(rb.node) if isinstance(s, ast.If)]
     ok = len(ifs) == 1 and parity.mode_test(ifs[0].test) is not None
     if ok:
         m = parity.mode_test(ifs[0].test)
@@ -368,6 +368,21 @@ def s9(ctx, rep):
         raise AnchorError("successive_halving_rung_levels: no rounding found (levels no longer integers?)")
 
 
+def s10(ctx, rep):
+    """Rung.quantile: q (or 1 - q) and everything computed from it count positions in ascending order, the entry list is
+    best-first; a position derived from q addresses the list only inside the min/max switch (shared with C15-S1)"""
+    from . import c15
+    P = ctx.P
+    f = P.method("Rung", "quantile")
+    sites = [x for x in walk_shallow(f.node) if isinstance(x, ast.IfExp) and parity.mode_test(x.test, c15.FLAGS) is not None]
+    if len(sites) != 1:
+        raise AnchorError("Rung.quantile: `q = prom_quant if min else 1 - prom_quant` not found")
+    bad = c15._mode_typed_positions_used_raw(f, sites[0].test)
+    rep.put(not bad, "S3", "parity", "Rung.quantile: positions derived from q address the entry list only inside the mode switch", f,
+            bad[0] if bad else sites[0], "", f"`{U(bad[0])[:60] if bad else ''}` indexes the best-first entry list with an ascending-order position "
+            "outside the min/max switch: the cutoff is the mirrored entry for mode 'max'")
+
+
 def run(ctx, rep, tier="quick"):
     s1(ctx, rep)
     s2(ctx, rep)
@@ -378,3 +393,4 @@ def run(ctx, rep, tier="quick"):
     s7(ctx, rep)
     s8(ctx, rep)
     s9(ctx, rep)
+    s10(ctx, rep)
